@@ -234,6 +234,13 @@ def CMP(kind: str, a, b) -> sp.Basic:
     """Canonical comparisons: only lt / ge / eq / ne survive (gt, le are flipped)."""
     a = to_term(a)
     b = to_term(b)
+    # count_nonzero(m) == m.size says that every element of m holds: all(m)
+    if kind in ("eq", "ne"):
+        for x, y in ((a, b), (b, a)):
+            if fname(x) in ("count_nonzero", "ext_numpy_count_nonzero") and len(x.args) == 1 and fname(y) in ("size", "len") \
+                    and len(y.args) == 1 and y.args[0] == x.args[0]:
+                r = op("all", x.args[0], NONE_T)
+                return r if kind == "eq" else NOT(r)
     if kind == "gt":
         kind, a, b = "lt", b, a
     elif kind == "le":
